@@ -93,6 +93,10 @@ def make_iter(ex, node, st):
                 st2.assume(S.has_type(t, et, st2.next_ref))
                 return V(t, et)
             return Iter(z3.Length(seq), elem, seq, None, 'tuple')
+    if k == 'any' and getattr(ex, 'lenient', False):
+        seq = S.fresh('uk_iter', S.SeqP())
+        ex.notes.append(f'lenient: iteration over a value of unknown type ({desc}) as an arbitrary sequence')
+        return Iter(z3.Length(seq), lambda i, st2, seq=seq: V(S.at(seq, i), S.Any), seq, None, 'tuple')
     raise Unsupported(f'iteration over {ty}: {desc}')
 
 
